@@ -37,6 +37,28 @@ def guard(body, lhs_pat, where):
     return m.group(1), m.group(2)
 
 
+def reset_top_path(b):
+    """what StatefulTokenizer::reset does to top_path, decided on the STATEMENTS of the function's top level:
+         clear_or_recreate  Some(p) -> p.clear(), None -> Some(Vec::new())   (match / if let .. else / unconditional assignment)
+         clear_if_some      Some(p) -> p.clear(), None stays                 (Option::map for its effect / if let without else)
+         recreate_if_none   None -> Some(Vec::new()), Some(p) is left as it is
+         none"""
+    bb = R.map_to_if_let("{" + b + "}")[1:-1]
+    new_vec = r"(?:Vec::new\(\)|vec!\[\]|Vec::default\(\)|Default::default\(\))"
+    for s0, e0 in R._top_level_statements(bb):
+        st = re.sub(r"\s+", " ", bb[s0:e0]).strip()
+        if re.fullmatch(r"match self\.top_path\.as_mut\(\) \{ Some\((\w+)\) => \1\.clear\(\), None => self\.top_path = Some\(%s\),? \}" % new_vec, st) or \
+           re.fullmatch(r"match self\.top_path\.as_mut\(\) \{ None => self\.top_path = Some\(%s\), Some\((\w+)\) => \1\.clear\(\),? \}" % new_vec, st) or \
+           re.fullmatch(r"if let Some\((\w+)\) = self\.top_path\.as_mut\(\) \{ \1\.clear\(\);? \} else \{ self\.top_path = Some\(%s\);? \}" % new_vec, st) or \
+           re.fullmatch(r"self\.top_path = Some\(%s\);" % new_vec, st):
+            return "clear_or_recreate"
+        if re.fullmatch(r"if let Some\((\w+)\) = (?:self\.top_path\.as_mut\(\)|&mut self\.top_path) \{ \1\.clear\(\);? \}", st):
+            return "clear_if_some"
+        if re.fullmatch(r"if self\.top_path\.is_none\(\) \{ self\.top_path = Some\(%s\);? \}" % new_vec, st):
+            return "recreate_if_none"
+    return "none"
+
+
 def collect_results_swaps(t, b):
     """MorphemeList::collect_results(&mut self, A): `A.swap_result(&mut P.input, &mut self.nodes.mut_data(), &mut P.subset)` where
     P is `G.deref_mut()` of the guard G of `self.input.try_borrow_mut()` -- obtained through `match .. { Ok(mut G) => .. }` or through
@@ -80,13 +102,7 @@ def gen():
     out.append("Definition tokenizer_fields : list string := %s.\n" % strs(struct_fields(t, "StatefulTokenizer", rel)))
     b = F.fn_body(t, "reset", rel)
     cl = clears(b)
-    top = "none"
-    if re.search(r"match\s+self\.top_path\.as_mut\(\)\s*\{\s*Some\(p\)\s*=>\s*p\.clear\(\)\s*,\s*None\s*=>\s*self\.top_path\s*=\s*Some\(Vec::new\(\)\)\s*,?\s*\}", b):
-        top = "clear_or_recreate"
-    elif re.search(r"self\.top_path\.as_mut\(\)\.map\(\|p\|\s*p\.clear\(\)\)\s*;", b):
-        top = "clear_if_some"
-    elif re.search(r"self\.top_path\s*=\s*Some\(Vec::new\(\)\)\s*;", b):
-        top = "clear_or_recreate"
+    top = reset_top_path(b)
     if re.search(r"self\.input\.reset\(\)", b):
         cl = sorted(set(cl + ["input"]))
     out.append("(* StatefulTokenizer::reset: fields cleared; treatment of top_path: clear_if_some | clear_or_recreate | none *)\n")
